@@ -2,6 +2,11 @@
 HERE=$(cd "$(dirname "$0")" && pwd)
 # usage: allseeds.sh <tier> <seed>...  -- runs every registered check at the given seeds, prints non-zero exits
 TIER=$1; shift
+# background snapshot runs (vp run --with-repo): test the snapshot of /repo, so that /repo stays free for other work
+if [ -n "$VP_RUN_REPO" ]; then
+  export VERIF_REPO="$VP_RUN_REPO"
+  sed -i "s#path = \"/repo#path = \"$VP_RUN_REPO#" "$HERE"/../harness/*/Cargo.toml
+fi
 for s in "$@"; do
   for p in ${PROPS:-C01 C02 C03 C04 C05 C06 C07 C08 C09 C10 C11 C12 C13 C14 C15 C16 C17 C18 C19 C20}; do
     t0=$(date +%s)
